@@ -221,6 +221,19 @@ def run_unit(repo, unit, builddir, tier):
         out['stderr_tail'] = r.get('stderr', '')[-3000:]
         return out
     if r['status'] == 'failed':
+        # a failed obligation in a function whose text now holds a closure the proof was not written for (more un-rewritten closures
+        # than its `//@splice .. closures_ok=N` line allows) is NOT a violation: Verus accepts such a closure (e.g. inside Option::map)
+        # without seeing through it, so the obligation may be unprovable although the behaviour is unchanged -> undecided
+        opaque = []
+        failed_fns = set(d['function'] for d in r['failures'])
+        for f in sp.functions:
+            if f.get('role') in ('main', 'helper') and f['item'].split('::')[-1] in failed_fns \
+                    and len(f.get('closures_left') or []) > f.get('closures_ok', 0):
+                opaque.append('%s (%s:%s)' % (f['item'], f['file'], ','.join(str(x) for x in f['closures_left'])))
+        if opaque:
+            out['status'] = 'undecided'
+            out['reason'] = 'obligation failed in a function that now holds a closure the proof was not written for: ' + '; '.join(opaque)
+            return out
         fails = []
         for d in r['failures']:
             ol = d['line']
